@@ -469,3 +469,4 @@ pub fn generate(t: &mut Tape, cfg: &Cfg) -> Program {
 include!("svgen_expr.rs");
 include!("svgen_items.rs");
 include!("svgen_top.rs");
+include!("svgen_more.rs");
